@@ -10,7 +10,7 @@ from engines import optim_lib as L
 
 def gen_cases(ctx):
     r = ctx.rng
-    n = 2500 if ctx.quick() else 60000
+    n = 2500 if ctx.quick() else 250000
     cases, kinds, feats = [], {}, {}
     for _ in range(n):
         c, kind, feat = L.gen_c12_case(r)
@@ -103,3 +103,19 @@ def run(ctx):
     ]
     if not res["ok"]:
         ctx.proof_broken()
+
+
+def replay(ctx, obj):
+    """Re-run the recorded history on the CURRENT /repo tree and on the model."""
+    import json
+    print(json.dumps({k: v for k, v in obj.items() if k not in ("build_log_tail",)}, indent=1)[:3000])
+    case = obj.get("case")
+    if not case:
+        return 0
+    model = pv.build_ocaml("optim")
+    impl = pv.build_harness("plain", "opt_drv")
+    rc1, io, rc2, mo, mc = L.two_pass(pv, [case], impl, model)
+    print("implementation:", io[0] if io else "<none>")
+    print("model         :", mo[0] if mo else "<none>")
+    print("REPRODUCED" if (not io or not mo or io[0] != mo[0]) else "not reproduced: model and implementation agree on this history now")
+    return 0
